@@ -1,5 +1,6 @@
 # C03 -- pairwise einsum / contraction / single-tensor einsum / inner / outer / explicit-output einsum
 #        equal the Einstein summation they denote
+import zlib
 from pipeline import *
 from c01 import CXX_T
 
@@ -41,6 +42,7 @@ static void es_child_exit() { _exit(77); }
 static void es_child_setup() {
     signal(SIGSEGV, SIG_DFL); signal(SIGBUS, SIG_DFL); signal(SIGILL, SIG_DFL); signal(SIGFPE, SIG_DFL); signal(SIGABRT, SIG_DFL);
     std::set_terminate(es_child_exit);
+    alarm(30);              // a call that does not return is a fault (14) too
 }
 template<class T> __attribute__((noinline)) static void es_load(T* d, const T* s, size_t n) {
     for (size_t i = 0; i < n; ++i) d[i] = s[i];
@@ -123,9 +125,6 @@ template<class I, class J, class TB> static void es_meta(const char* id, const c
 }
 '''
 
-PAIR_FORMS = ("einsum", "contraction", "explicit")
-
-
 def _digits(l):
     return "".join(str(x) for x in l)
 
@@ -165,7 +164,9 @@ class C03(Check):
             "-> distinct extents within a budget of multiply-adds; last label of b a multiple / a non-multiple of the vector widths); forms "
             "einsum<I,J>, contraction<I,J>, einsum<I,J,OIndex> (C++17 configurations), einsum<I>(a) for every rank 1..4 pattern (+OIndex), "
             "inner, outer; each case on 2 data draws (random small integers in [-4,4], position-revealing); distinct = distinct (case, draw) "
-            "inputs; every event compares the extents of the static result type and every element with Einsum!EinsteinSum computed by TLC")
+            "inputs; every event compares the extents of the static result type and every element with Einsum!EinsteinSum computed by TLC; "
+            "thorough: the 6 primary ISA/standard configurations run the whole plan, the other 6 a fixed third of the einsum<I,J> cases, "
+            "the 3 CONTRACT_OPT configurations the pair forms of ranks <= 3")
     assumptions = ["operand data are small integers (|x| <= 31), every partial sum stays exactly representable in every element type, so exact "
                    "equality with the TLC-computed Einstein sum is sound for any summation order / FMA / ISA",
                    "Schwartz-Zippel: a wrong multilinear form agrees with the right one on a random draw from [-4,4] with probability <= 2/9 per element; "
@@ -206,13 +207,20 @@ class C03(Check):
         self.by_case = {c["case"]: c for c in items}
         return items
 
-    # which cases a configuration runs: the explicit-output overload set is declared under FASTOR_CXX_VERSION >= 2017 only;
-    # the CONTRACT_OPT configurations run the pair forms of ranks <= 3 on the two main types (compile cost of the meta-engine)
+    # Which cases a configuration runs (a case id denotes the same inputs in every configuration that runs it):
+    #  * the explicit-output overload set is declared under FASTOR_CXX_VERSION >= 2017 only;
+    #  * the CONTRACT_OPT configurations run the pair forms of ranks <= 3 on the two main types (compile cost of the meta-engine);
+    #  * thorough tier: the configurations in PRIMARY run the whole plan, the remaining ISA x standard combinations run every case of
+    #    the non-einsum forms and a fixed third of the einsum<I,J> cases (chosen by a hash of the case id).
+    PRIMARY = ("scalar-14-O2", "sse2-14-O2", "avx2-14-O2", "avx512-14-O2", "avx2-17-O2", "avx512-17-O2")
+
     def runs(self, c, cfgname):
         if c["form"] in ("explicit", "single_explicit") and "-17-" not in cfgname:
             return False
         if "CONTRACT_OPT" in cfgname:
             return c["form"] in ("einsum", "contraction") and c["T"] in ("f64", "i32") and max(len(c["la"]), len(c["lb"])) <= 3
+        if cfgname not in self.PRIMARY and c["form"] == "einsum":
+            return zlib.crc32(c["case"].encode()) % 3 == 0
         return True
 
     def stmt(self, c, k, meta):
